@@ -2061,6 +2061,20 @@ class BuiltinsMixin(object):
             return [(path, self.get_attr(args[0], args[1].v, path, node))]
         return [(path, App('getattr', *args))]
 
+    def bi_hasattr(self, args, kw, path, node):
+        # hasattr(<package module>, 'Name'): the static namespace decides
+        if len(args) == 2 and isinstance(args[0], MRef) and \
+                isinstance(args[1], Const) and isinstance(args[1].v, str):
+            nm = args[0].name
+            short = nm[len(self.prog.pkg) + 1:] if hasattr(
+                self.prog, 'pkg') and nm.startswith(
+                    self.prog.pkg + '.') else nm
+            for cand in (nm, short):
+                if cand in self.prog.modules:
+                    r = self.prog.module_attr(cand, args[1].v)
+                    return [(path, Const(r is not None))]
+        return [(path, App('call', BRef('hasattr'), Tup(args)))]
+
     def bi_super(self, args, kw, path, node):
         if len(args) == 2 and isinstance(args[0], CRef):
             return [(path, App('super', args[0], args[1]))]
